@@ -359,18 +359,18 @@ duplicated or reordered within a thread; and every queued or dispatched command 
 accepted order is exactly an interleaving of the per-thread send orders. The lock flag is the one the
 translator extracts from `enqueue()`. -/
 theorem T5_per_thread_fifo (n : Nat) (sched : List Enq.Actor) (t : Enq.Tid) (ht : t < n) :
-    let q := Enq.run Gen.TcpSession.enqueuePushUnderCmdMutex Gen.TcpSession.processSwapUnderCmdMutex (Enq.init n) sched
+    let q := Enq.run Gen.TcpSession.enqueuePushUnderCmdMutex Gen.TcpSession.processSwapUnderCmdMutex Gen.TcpSession.processDispatchesWholeBatch (Enq.init n) sched
     (∃ th, q.thr[t]? = some th ∧
       Enq.seqOf t (q.taken ++ q.cmds) = List.range (th.next + (if th.pc = .stored then 1 else 0))) ∧
     (∀ c ∈ q.taken ++ q.cmds, c.1 < n) := by
-  show (∃ th, (Enq.run true true (Enq.init n) sched).thr[t]? = some th ∧
-      Enq.seqOf t ((Enq.run true true (Enq.init n) sched).taken ++ (Enq.run true true (Enq.init n) sched).cmds) =
+  show (∃ th, (Enq.run true true true (Enq.init n) sched).thr[t]? = some th ∧
+      Enq.seqOf t ((Enq.run true true true (Enq.init n) sched).taken ++ (Enq.run true true true (Enq.init n) sched).cmds) =
         List.range (th.next + (if th.pc = .stored then 1 else 0))) ∧
-    (∀ c ∈ (Enq.run true true (Enq.init n) sched).taken ++ (Enq.run true true (Enq.init n) sched).cmds, c.1 < n)
-  have hinv : Enq.EInv (Enq.run true true (Enq.init n) sched) := Enq.run_inv sched (Enq.init n) (Enq.init_inv n)
-  have hlen : (Enq.run true true (Enq.init n) sched).thr.length = n := by
+    (∀ c ∈ (Enq.run true true true (Enq.init n) sched).taken ++ (Enq.run true true true (Enq.init n) sched).cmds, c.1 < n)
+  have hinv : Enq.EInv (Enq.run true true true (Enq.init n) sched) := Enq.run_inv sched (Enq.init n) (Enq.init_inv n)
+  have hlen : (Enq.run true true true (Enq.init n) sched).thr.length = n := by
     rw [Enq.run_thr_length]; simp [Enq.init]
-  have hlt : t < (Enq.run true true (Enq.init n) sched).thr.length := by rw [hlen]; exact ht
+  have hlt : t < (Enq.run true true true (Enq.init n) sched).thr.length := by rw [hlen]; exact ht
   refine ⟨⟨_, List.getElem?_eq_getElem hlt, hinv.fifo t _ (List.getElem?_eq_getElem hlt)⟩, ?_⟩
   intro c hc
   have := hinv.dom c hc
@@ -382,7 +382,7 @@ accepted send, never several (a `send` that queued its payload in pieces would c
 numbers present are exactly `0 … k-1`. The source-side half is `gen_conforms`: `send` has no loop, copies all `n` bytes into ONE
 `Command::send` and calls `enqueue` once. -/
 theorem send_is_one_command (n : Nat) (sched : List Enq.Actor) (t : Enq.Tid) (ht : t < n) :
-    let q := Enq.run Gen.TcpSession.enqueuePushUnderCmdMutex Gen.TcpSession.processSwapUnderCmdMutex (Enq.init n) sched
+    let q := Enq.run Gen.TcpSession.enqueuePushUnderCmdMutex Gen.TcpSession.processSwapUnderCmdMutex Gen.TcpSession.processDispatchesWholeBatch (Enq.init n) sched
     ∃ th, q.thr[t]? = some th ∧
       ((q.taken ++ q.cmds).filter (·.1 == t)).length = th.next + (if th.pc = .stored then 1 else 0) ∧
       (Enq.seqOf t (q.taken ++ q.cmds)).Nodup ∧
@@ -426,7 +426,7 @@ after it: open ⇒ wire ++ pending = (bytes of `a`) ++ `pay c` ++ (bytes of `b`)
 commands of each thread among the dispatched ones are its sends `0, 1, …` in order, each once (T5). -/
 theorem T5_T1_one_send_contiguous (cfg : Cfg) (hcob : cfg.closeOnBackpressure = true) (s0 : St) (h0 : s0.Fresh)
     (n : Nat) (sched : List Enq.Actor) (pay : Enq.Tid → Nat → Bytes) (is : List In) :
-    let q := Enq.run Gen.TcpSession.enqueuePushUnderCmdMutex Gen.TcpSession.processSwapUnderCmdMutex (Enq.init n) sched
+    let q := Enq.run Gen.TcpSession.enqueuePushUnderCmdMutex Gen.TcpSession.processSwapUnderCmdMutex Gen.TcpSession.processDispatchesWholeBatch (Enq.init n) sched
     let bytesOf : List Enq.Cmd → Bytes := fun l => (l.map fun c => pay c.1 c.2).flatten
     sentPayloads is = q.taken.map (fun c => pay c.1 c.2) →
     let s := (run cfg s0 is).1
@@ -442,7 +442,7 @@ theorem T5_T1_one_send_contiguous (cfg : Cfg) (hcob : cfg.closeOnBackpressure = 
 /-- example: two senders; thread 0's one send `[1,2,3]` is cut after one byte and refused once, thread 1's `[9]` was dispatched
 after it — the wire shows `[1,2,3]` as one block followed by `[9]`, whatever happened in between -/
 example :
-    let q := Enq.run true true (Enq.init 2) [.sender 0, .sender 0, .sender 1, .sender 0, .sender 0, .sender 1, .sender 1, .sender 1,
+    let q := Enq.run true true true (Enq.init 2) [.sender 0, .sender 0, .sender 1, .sender 0, .sender 0, .sender 1, .sender 1, .sender 1,
       .sender 1, .io]
     let pay : Enq.Tid → Nat → Bytes := fun t _ => if t = 0 then [1, 2, 3] else [9]
     let is : List In := [.cmdSend [1, 2, 3] (.wrote 1), .cmdSend [9] .again,
@@ -459,9 +459,26 @@ contents, then clear, as two steps at any time), one sender suffices: its `enque
 and its command is neither queued nor dispatched — the translator fact `processSwapUnderCmdMutex` is load-bearing (it is the
 second argument of `Enq.run` in T5). -/
 theorem T5_needs_locked_swap :
-    ∃ sched, let q := Enq.run true false (Enq.init 1) sched
+    ∃ sched, let q := Enq.run true false true (Enq.init 1) sched
       (q.thr.map (·.next)) = [1] ∧ (q.thr.map (·.pc)) = [.idle] ∧ q.taken ++ q.cmds = [] ∧ q.ioTmp = none :=
   ⟨[.io, .sender 0, .sender 0, .sender 0, .sender 0, .io], by decide⟩
+
+/-- **T5 needs "one `process()` dispatches the whole swapped batch".** If `process()` worked under a per-wake-up budget and handed the
+unprocessed tail back to `_cmds` with `push_back` (`wholeBatch = false`, budget 1 here), ONE sender suffices to break per-thread FIFO:
+it enqueues commands 0 and 1, the I/O thread swaps both out, the sender enqueues command 2 while command 0 is dispatched, the tail
+`[1]` is re-queued BEHIND it — dispatch order 0, 2, 1 with the session open and no error. The translator fact
+`processDispatchesWholeBatch` (dispatch loop without early exit, `_cmds` touched only by the locked swap, no eventfd write in
+`process()`) is the third argument of `Enq.run` in T5 and load-bearing. -/
+theorem T5_needs_whole_batch_dispatch :
+    ∃ sched, let q := Enq.run true true false (Enq.init 1) sched
+      q.taken = [(0, 0), (0, 2), (0, 1)] ∧ q.cmds = [] ∧ (q.thr.map (·.next)) = [3] ∧ (q.thr.map (·.pc)) = [.idle] ∧
+      Enq.seqOf 0 (q.taken ++ q.cmds) ≠ List.range 3 :=
+  ⟨[.sender 0, .sender 0, .sender 0, .sender 0, .sender 0, .sender 0, .sender 0, .sender 0, .io,
+    .sender 0, .sender 0, .sender 0, .sender 0, .io, .io, .io, .io, .io], by decide⟩
+
+/-- the code as it is dispatches the whole batch (regenerated from the dispatch loop of `process()`) -/
+theorem T5_default_whole_batch : Gen.TcpSession.processDispatchesWholeBatch = true ∧
+    Gen.TcpSession.cmdsMutations = ["push_back", "push_back", "swap-arg", "swap-arg"] ∧ Gen.TcpSession.eventFdWrites = 2 := by decide
 
 /-! ## The eventfd wake-up: an accepted command is dispatched -/
 
@@ -473,7 +490,7 @@ the sender that pushed still holds the lock right before its eventfd write; ever
 whenever the I/O thread is asleep (in `epoll_wait`, counter 0, no `enqueue` in flight) the queue is EMPTY and every accepted
 command has been handed to the dispatch loop. -/
 theorem no_lost_wakeup (sched : List Wake.Actor) :
-    let w := Wake.run Gen.TcpSession.enqueueWakeAfterPushUnderLock Gen.TcpSession.loopDrainBeforeProcess {} sched
+    let w := Wake.run Gen.TcpSession.enqueueWakeAfterPushUnderLock Gen.TcpSession.loopDrainBeforeProcess Gen.TcpSession.processDispatchesWholeBatch {} sched
     (w.cmds > 0 → w.evt > 0 ∨ w.io = .mid ∨ w.crit = .pushed) ∧ w.accepted = w.taken + w.cmds ∧
     (w.Asleep → w.cmds = 0 ∧ w.taken = w.accepted) := by
   have key : ∀ w : Wake.W, Wake.WInv w →
@@ -495,14 +512,21 @@ theorem no_lost_wakeup (sched : List Wake.Actor) :
 /-- **… and the I/O thread needs at most three of its own steps** (wake, `drainEvt`, `process`) to take everything that is queued,
 from every reachable state in which no sender holds the lock. -/
 theorem wakeup_dispatches_all (sched : List Wake.Actor) :
-    let w := Wake.run Gen.TcpSession.enqueueWakeAfterPushUnderLock Gen.TcpSession.loopDrainBeforeProcess {} sched
+    let w := Wake.run Gen.TcpSession.enqueueWakeAfterPushUnderLock Gen.TcpSession.loopDrainBeforeProcess Gen.TcpSession.processDispatchesWholeBatch {} sched
     w.crit = .free →
-      (Wake.run true true w [.io, .io, .io]).cmds = 0 ∧ (Wake.run true true w [.io, .io, .io]).taken = w.accepted := by
+      (Wake.run true true true w [.io, .io, .io]).cmds = 0 ∧ (Wake.run true true true w [.io, .io, .io]).taken = w.accepted := by
   intro w hf
   exact Wake.io_alone w (Wake.run_inv sched {} Wake.init_inv) hf
 
+/-- `wakeup_dispatches_all` needs the whole-batch dispatch: with a budget of one command per `process()` call two queued commands
+are not both taken by the I/O thread's next three steps (the second needs another wake-up, which the re-signalled eventfd provides) -/
+theorem wakeup_three_steps_need_whole_batch :
+    let w := Wake.run true true false {} [.sender, .sender, .sender, .sender, .sender, .sender, .sender, .sender]
+    w.crit = .free ∧ w.accepted = 2 ∧ (Wake.run true true false w [.io, .io, .io]).cmds = 1 ∧
+    (Wake.run true true false w [.io, .io, .io]).evt = 1 := by decide
+
 /-- non-vacuity: two senders' enqueues around a wake-up; everything is dispatched, the I/O thread sleeps with an empty queue -/
-example : let w := Wake.run true true {} [.sender, .sender, .sender, .io, .io, .sender, .sender, .sender, .sender, .sender, .io, .io, .io, .io]
+example : let w := Wake.run true true true {} [.sender, .sender, .sender, .io, .io, .sender, .sender, .sender, .sender, .sender, .io, .io, .io, .io]
     w.accepted = 2 ∧ w.taken = 2 ∧ w.cmds = 0 ∧ w.evt = 0 ∧ w.io = .waiting ∧ w.crit = .free := by decide
 
 /-- **Commands accepted before the loop thread runs are not lost.** `start()` publishes the fresh eventfd and reopens the queue in ONE
@@ -512,12 +536,12 @@ So `enqueue` never accepts a command without a valid descriptor to write to, and
 first `epoll_wait` — stays in the counter, which is exactly the model's `evt` (a level, not an edge): any number `k` of complete
 `enqueue` calls before the I/O thread's first step leave `evt = k`, and the I/O thread's first three steps dispatch all of them. -/
 theorem wakeup_commands_before_loop_start (k : Nat) :
-    let w := Wake.run Gen.TcpSession.enqueueWakeAfterPushUnderLock Gen.TcpSession.loopDrainBeforeProcess {}
+    let w := Wake.run Gen.TcpSession.enqueueWakeAfterPushUnderLock Gen.TcpSession.loopDrainBeforeProcess Gen.TcpSession.processDispatchesWholeBatch {}
       ((List.replicate k [Wake.Actor.sender, .sender, .sender, .sender]).flatten)
     w.io = .waiting ∧ w.crit = .free ∧ w.cmds = k ∧ w.evt = k ∧ w.accepted = k ∧
-    (Wake.run true true w [.io, .io, .io]).cmds = 0 ∧ (Wake.run true true w [.io, .io, .io]).taken = k := by
+    (Wake.run true true true w [.io, .io, .io]).cmds = 0 ∧ (Wake.run true true true w [.io, .io, .io]).taken = k := by
   have key : ∀ (k : Nat) (w0 : Wake.W), w0.crit = .free →
-      let w := Wake.run true true w0 ((List.replicate k [Wake.Actor.sender, .sender, .sender, .sender]).flatten)
+      let w := Wake.run true true true w0 ((List.replicate k [Wake.Actor.sender, .sender, .sender, .sender]).flatten)
       w.io = w0.io ∧ w.crit = .free ∧ w.cmds = w0.cmds + k ∧ w.evt = w0.evt + k ∧ w.accepted = w0.accepted + k := by
     intro k
     induction k with
@@ -525,7 +549,7 @@ theorem wakeup_commands_before_loop_start (k : Nat) :
     | succ n ih =>
       intro w0 h
       simp only [List.replicate_succ, List.flatten_cons, List.cons_append, List.nil_append, Wake.run]
-      have h1 := ih (Wake.step true true (Wake.step true true (Wake.step true true (Wake.step true true w0 .sender) .sender) .sender) .sender)
+      have h1 := ih (Wake.step true true true (Wake.step true true true (Wake.step true true true (Wake.step true true true w0 .sender) .sender) .sender) .sender)
         (by simp [Wake.step, h])
       simp only at h1
       refine ⟨by rw [h1.1]; simp [Wake.step, h], h1.2.1, ?_, ?_, ?_⟩
@@ -535,7 +559,7 @@ theorem wakeup_commands_before_loop_start (k : Nat) :
   intro w
   have hk := key k {} rfl
   simp only at hk
-  have hw : w = Wake.run true true {} ((List.replicate k [Wake.Actor.sender, .sender, .sender, .sender]).flatten) := rfl
+  have hw : w = Wake.run true true true {} ((List.replicate k [Wake.Actor.sender, .sender, .sender, .sender]).flatten) := rfl
   have hd := wakeup_dispatches_all ((List.replicate k [Wake.Actor.sender, .sender, .sender, .sender]).flatten)
   simp only at hd
   rw [← hw] at hk
@@ -546,14 +570,14 @@ theorem wakeup_commands_before_loop_start (k : Nat) :
 /-- **The order `drainEvt(); process();` is needed.** With `process(); drainEvt();` a command enqueued between the swap and the
 drain is wiped from the eventfd counter: the I/O thread sleeps, the command sits in the queue, nobody is in `enqueue`. -/
 theorem wakeup_needs_drain_before_process :
-    ∃ sched, let w := Wake.run true false {} sched
+    ∃ sched, let w := Wake.run true false true {} sched
       w.io = .waiting ∧ w.evt = 0 ∧ w.crit = .free ∧ w.pre = 0 ∧ w.cmds = 1 ∧ w.accepted = 2 ∧ w.taken = 1 :=
   ⟨[.sender, .sender, .sender, .sender, .io, .io, .sender, .sender, .sender, .sender, .io], by decide⟩
 
 /-- **The eventfd write must follow the push (inside the lock).** With the write before the lock, the I/O thread can wake, drain and
 swap an empty queue before the push happens: asleep with one command queued. -/
 theorem wakeup_needs_write_after_push :
-    ∃ sched, let w := Wake.run false true {} sched
+    ∃ sched, let w := Wake.run false true true {} sched
       w.io = .waiting ∧ w.evt = 0 ∧ w.crit = .free ∧ w.pre = 0 ∧ w.cmds = 1 ∧ w.accepted = 1 ∧ w.taken = 0 :=
   ⟨[.early, .io, .io, .io, .sender, .sender, .sender], by decide⟩
 
@@ -561,13 +585,13 @@ theorem wakeup_needs_write_after_push :
 def demoSched : List Enq.Actor :=
   [.sender 0, .sender 1, .sender 0, .sender 0, .sender 0, .io, .sender 1, .sender 1, .sender 1, .sender 1, .sender 0,
    .sender 0, .sender 0, .sender 0]
-example : (Enq.run true true (Enq.init 2) demoSched).taken = [(0, 0)] ∧
-    (Enq.run true true (Enq.init 2) demoSched).cmds = [(1, 0), (0, 1)] := by decide
+example : (Enq.run true true true (Enq.init 2) demoSched).taken = [(0, 0)] ∧
+    (Enq.run true true true (Enq.init 2) demoSched).cmds = [(1, 0), (0, 1)] := by decide
 
 /-- **T5 needs the mutex.** With `locking = false` there is a two-thread schedule in which both `enqueue` calls return
 but only one command is in the queue — the translator fact `enqueuePushUnderCmdMutex` is load-bearing. -/
 theorem T5_needs_mutex :
-    ∃ sched, let q := Enq.run false true (Enq.init 2) sched
+    ∃ sched, let q := Enq.run false true true (Enq.init 2) sched
       (q.thr.map (·.next)) = [1, 1] ∧ (q.thr.map (·.pc)) = [.idle, .idle] ∧ Enq.seqOf 0 (q.taken ++ q.cmds) = [] :=
   ⟨[.sender 0, .sender 1, .sender 0, .sender 1, .sender 0, .sender 1, .sender 0, .sender 1], by decide⟩
 
